@@ -1,9 +1,20 @@
 (* C03 — A mint quote is issued at most once per payment, never before it is paid
    Statements only; every proof is `exact <lemma>` into Mint/*.v (model: Mint/Model.v, semantics: Mint/Sem.v). *)
 From Coq Require Import ZArith List Bool.
-From Verif Require Import Model Sem InvDb InvSwap InvMint InvMelt Corollaries Queries.
+From Verif Require Import Model Sem InvDb InvSwap InvMint InvMelt Corollaries Queries Footprint Global GlobalQuote Cuts.
 Import ListNotations.
 Open Scope Z_scope.
+
+Theorem C03_quote_issued_at_most_once_per_payment : forall (cfg : config) (h : list op),
+       honest cfg world0 h ->
+       let
+       '(w, iss, cred) := qtrace cfg world0 h [] [] in
+        forall m : mquote,
+        In m (d_mq (w_db w)) ->
+        cnt (mq_id m) iss <= esett w m + cnt (mq_id m) cred /\
+        (mq_state m = 0 -> cnt (mq_id m) iss <= cnt (mq_id m) cred).
+Proof. exact @quote_issued_at_most_once_per_payment. Qed.
+Print Assumptions C03_quote_issued_at_most_once_per_payment.
 
 Theorem C03_mint_needs_payment : forall (mem_ks : list ksrow) (active id : Z) (outs : list bmsg) (sig : Z) (w w' : world) (sigs : list srow),
        WInv w ->
